@@ -29,8 +29,8 @@ func (c *ProxyConfig) setRestartNeededProps() {
 }
 
 func (c *ProxyConfig) verify() error {
-	if c.Listen.Read() == "" {
-		return fmt.Errorf("proxy.listen cannot be empty")
+	if err := verifyListenAddress("proxy.listen", c.Listen.Read()); err != nil {
+		return err
 	}
 	if c.CaCert.Read() == "" {
 		return fmt.Errorf("proxy.ca_cert cannot be empty")
